@@ -5244,8 +5244,12 @@ class FlowIRConcrete(object):
 
         platform_environments = self.get_environments(platform)
 
+        # VV: the environment of a platform is layered on top of the same-named environment of the default platform
         environments = default_environments
-        environments.update(platform_environments)
+        for env_name, env_vars in platform_environments.items():
+            layered = dict(environments.get(env_name) or {})
+            layered.update(env_vars or {})
+            environments[env_name] = layered
 
         global_variables = FlowIR.fill_in(
             global_variables, context=global_variables, flowir=self._flowir, ignore_errors=True,
